@@ -53,7 +53,18 @@ package args
 //@   requires a != nil
 //@   assigns [C20] nothing
 //@   loop 0: invariant fresh(res)
+//@ // every stored value has its integers within the safe range
+//@ pure func argsInBounds(a *Args) bool = forall k string :: has(a.Values, k) ==> intsInBounds(a.Values[k])
 //@ func (*Args).Validate
-//@   requires a != nil
+//@   requires a != nil && (forall k string :: has(a.Values, k) ==> a.Values[k] != nil)
+//@   ensures [C10] bounds: result == nil ==> argsInBounds(a)
 //@   assigns [C20] nothing
-//@   loop 0: invariant true
+//@   loop 0: invariant forall k string :: seen(a.Values, k) ==> intsInBounds(a.Values[k])
+//@
+//@ // ---- C10: values are stored exactly or rejected ------------------------------------------------------
+//@ func (*Args).Add
+//@   requires a != nil && a.Values != nil
+//@   ensures [C10] duplicate: old(has(a.Values, key)) ==> result != nil
+//@   ensures [C10] stored: result == nil ==> has(a.Values, key) && storedExactly(val, a.Values[key]) && intsInBounds(a.Values[key])
+//@   ensures [C10] rejected: result != nil ==> (forall k string :: has(a.Values, k) == old(has(a.Values, k))) && a.Keys == old(a.Keys)
+//@   assigns a.Values, a.Keys, a
